@@ -137,6 +137,13 @@ func Catalogue(env *world.Env) []CatEntry {
 	add("ESDTNFTCreateRoleTransfer/same-shard", base, uni.SysCall(A0, vmcommon.BuiltInFunctionESDTNFTCreateRoleTransfer, uni.S, B0))
 	add("ESDTNFTCreateRoleTransfer/cross-shard", base, uni.SysCall(A0, vmcommon.BuiltInFunctionESDTNFTCreateRoleTransfer, uni.S, C1))
 	delivery("ESDTNFTCreateRoleTransfer/delivery", base, uni.SysCall(A0, vmcommon.BuiltInFunctionESDTNFTCreateRoleTransfer, uni.S, C1))
+	// the next owner already holds a role record for the token
+	withRoles := after(base, uni.SetRole(B0, uni.S, vmcommon.ESDTRoleNFTBurn, vmcommon.ESDTRoleNFTAddQuantity), uni.SetRole(C1, uni.S, vmcommon.ESDTRoleNFTBurn))
+	add("ESDTNFTCreateRoleTransfer/same-shard-next-owner-holds-roles", withRoles, uni.SysCall(A0, vmcommon.BuiltInFunctionESDTNFTCreateRoleTransfer, uni.S, B0))
+	delivery("ESDTNFTCreateRoleTransfer/delivery-next-owner-holds-roles", withRoles, uni.SysCall(A0, vmcommon.BuiltInFunctionESDTNFTCreateRoleTransfer, uni.S, C1))
+	add("ESDTSetRole/account-holds-roles", withRoles, uni.SetRole(B0, uni.S, vmcommon.ESDTRoleNFTAddURI))
+	add("ESDTUnSetRole/one-of-two", withRoles, uni.UnSetRole(B0, uni.S, vmcommon.ESDTRoleNFTBurn))
+	add("ESDTUnSetRole/last-role", withRoles, uni.UnSetRole(C1, uni.S, vmcommon.ESDTRoleNFTBurn))
 	add("SaveKeyValue/new-pair", base, uni.Call(A0, A0, vmcommon.BuiltInFunctionSaveKeyValue, []byte("new"), []byte("value")))
 	add("SaveKeyValue/unchanged-growing-shrinking", base, uni.Call(A0, A0, vmcommon.BuiltInFunctionSaveKeyValue, []byte("k1"), []byte("vv"), []byte("k3"), []byte("vvvvv"), []byte("k2"), []byte("v")))
 	add("SaveKeyValue/all-unchanged", base, uni.Call(A0, A0, vmcommon.BuiltInFunctionSaveKeyValue, []byte("k1"), []byte("vv"), []byte("k2"), []byte("vvvv")))
